@@ -7,6 +7,7 @@ import Driver.Persist
 import Driver.QParser
 import Driver.Query
 import Driver.Reads
+import Driver.Score
 import Driver.SetOps
 import Driver.Widcode
 open Driver
@@ -20,6 +21,7 @@ def sessions : List (String × Sess) := [
   ("qparser", QParserS.sess),
   ("query", QueryS.sess),
   ("reads", ReadsS.sess),
+  ("score", ScoreS.sess),
   ("setops", SetOpsS.sess),
   ("setopsnbest", SetOpsS.sessNBest),
   ("widcode", WidcodeS.sess)
